@@ -134,7 +134,13 @@ var c13funcs = map[string]any{
 		}
 		s := fmt.Sprintf("%s%s;", c13Letter(op.Dest), num)
 		if op.Big > len(s) {
-			s += strings.Repeat(c13Letter(op.Dest), op.Big-len(s))
+			pad := c13Letter(op.Dest)
+			if op.Dest == "/dev/stderr" {
+				// standard error is compared token-wise (it also carries messages): the padding
+				// must not look like the letters of a token counter
+				pad = "_"
+			}
+			s += strings.Repeat(pad, op.Big-len(s))
 		}
 		st.trace = append(st.trace, c13Entry{ID: id, Tok: s})
 		if st.yield != nil {
@@ -1394,7 +1400,7 @@ func c13UsesTalkers(sc *c13Scn) bool {
 	return walk(sc.Begin) || walk(sc.Rule) || walk(sc.End)
 }
 
-var c13ErrTok = regexp.MustCompile(`e[a-j]+;`)
+var c13ErrTok = regexp.MustCompile(`e[a-j]+;_*`)
 
 func isTokNum(s string) bool {
 	if s == "" {
